@@ -9,3 +9,5 @@ mod ptpwire;
 mod csptp_wire;
 #[cfg(test)]
 mod csptp_server;
+#[cfg(test)]
+mod csptp_client;
